@@ -1,0 +1,81 @@
+//go:build verif
+
+package md4
+
+// Contracts for govc (/verif). Comments only.
+//
+// The compression function (_Block) is trusted: it consumes the full 64-byte
+// blocks of its argument and records them in the ghost stream fed(d) (ghost
+// fields flen, fbuf of the digest). What is decided here is the Merkle-Damgard
+// bookkeeping around it: buffering in Write, and the padding of Sum
+// (0x80, zeros up to 56 mod 64, bit length as 8 little-endian bytes).
+
+//@ ghostdecl fbuf (Array Int Int)
+//@ ghostinit golang.org/x/crypto/md4.digest flen 0
+
+//@ pred dinv(d) = 0 <= d.nx && d.nx < 64 && ghost(d, flen) >= 0 && ghost(d, flen) % 64 == 0 && d.nx == d.len % 64
+// byte q of everything written so far: first what the compression function has consumed, then the buffer
+//@ pred tot(d) = ghost(d, flen) + d.nx
+//@ pred byt(d, q) = ite(q < ghost(d, flen), ghost(d, fbuf)[q], d.x[q - ghost(d, flen)])
+
+//@ func _Block
+//@ props C14
+//@ trusted
+//@ note MD4 compression over the full blocks of p: not verified; assumed to change only dig.s, to return the number of bytes consumed and (ghost) to append them to fed(dig)
+//@ nonnil dig
+//@ modifies dig.s
+//@ modifies ghost(dig, flen)
+//@ modifies ghost(dig, fbuf)
+//@ ensures result == len(p) - len(p) % 64
+//@ ensures ghost(dig, flen) == old(ghost(dig, flen)) + result
+//@ ensures forall(q, old(ghost(dig, flen)), old(ghost(dig, flen)) + result, ghost(dig, fbuf)[q] == p[q - old(ghost(dig, flen))])
+//@ ensures forall(q, 0, old(ghost(dig, flen)), ghost(dig, fbuf)[q] == old(ghost(dig, fbuf)[q]))
+
+//@ func (*digest).Write
+//@ props C14
+//@ requires dinv(d) && ref(p) != ref(d.x[:])
+//@ modifies d.x
+//@ modifies d.nx
+//@ modifies d.len
+//@ modifies d.s
+//@ modifies ghost(d, flen)
+//@ modifies ghost(d, fbuf)
+//@ ensures nn == len(p) && err == nil && dinv(d)
+//@ ensures d.len == (old(d.len) + len(p)) % 18446744073709551616 && tot(d) == old(tot(d)) + len(p)
+//@ ensures forall(q, 0, old(tot(d)), byt(d, q) == old(byt(d, q)))
+//@ ensures forall(q, old(tot(d)), old(tot(d)) + len(p), byt(d, q) == p[q - old(tot(d))])
+//@ loop 1 invariant 0 <= i && i <= n
+//@ loop 1 invariant forall(k, 0, i, d.x[d.nx + k] == p[k]) && forall(k, 0, d.nx, d.x[k] == before(d.x[k]))
+//@ canary ensures d.nx == 0
+
+// Sum pads a copy of the state: 0x80, zeros up to 56 mod 64, then the bit length as 8 little-endian bytes;
+// the copy ends on a block boundary (the internal panic is unreachable) and d0 itself is not changed
+//@ func (*digest).Sum
+//@ props C14
+//@ reindex
+//@ requires dinv(d0)
+//@ modifies in[len(in):len(in)+16]
+//@ ensures len(result) == len(in) + 16 && forall(i, 0, len(in), result[i] == old(in[i]))
+//@ ensures d0.nx == old(d0.nx) && d0.len == old(d0.len) && forall(k, 0, 64, d0.x[k] == old(d0.x[k]))
+//@ let N = d0.nx
+//@ let padlen = ite(d0.len % 64 < 56, 56 - d0.len % 64, 120 - d0.len % 64)
+//@ check_at "len <<= 3" tot(d) == N + padlen && tot(d) % 64 == 56
+//@ check_at "len <<= 3" forall(q, 0, N, byt(d, q) == d0.x[q]) && byt(d, N) == 128 && forall(q, N + 1, N + padlen, byt(d, q) == 0)
+//@ check_at "if d.nx != 0 {" tot(d) == N + padlen + 8 && d.nx == 0
+//@ check_at "if d.nx != 0 {" forall(q, 0, 8, byt(d, N + padlen + q) == (((d0.len * 8) % 18446744073709551616) / spec.pow2f(8 * q)) % 256)
+//@ check_at "if d.nx != 0 {" forall(q, 0, N, byt(d, q) == d0.x[q]) && byt(d, N) == 128 && forall(q, N + 1, N + padlen, byt(d, q) == 0)
+//@ loop 2 invariant -1 <= rangeindex && rangeindex < 4 && len(in) == len(entry(in)) + 4 * (rangeindex + 1)
+//@ loop 2 invariant forall(i, 0, len(entry(in)), in[i] == old(entry(in)[i]))
+//@ loop 2 invariant sameoutside(entry(in)[len(entry(in)):len(entry(in))+16]) && onlyobjs(entry(in))
+//@ loop 2 invariant (sameobj(in, entry(in)) && off(in) == off(entry(in))) || newobj(in)
+//@ canary ensures len(result) == len(in)
+
+// Reset starts a new stream (the ghost stream is emptied by definition)
+//@ func (*digest).Reset
+//@ props C14
+//@ modifies d.s
+//@ modifies d.nx
+//@ modifies d.len
+//@ modifies ghost(d, flen)
+//@ assumed_ensures ghost(d, flen) == 0
+//@ ensures d.nx == 0 && d.len == 0
